@@ -227,18 +227,24 @@ func runHistory(cfg ccfg, ops []hop) (line string, ok bool, why string) {
 					r.k = -1
 					continue
 				}
-				for _, ct := range creations {
-					if diff := d - (ct + cfg.age); diff > -margin-margin/2 && diff < margin+margin/2 {
-						why = "timer near an expiration"
-						return false
-					}
-				}
 				requested := false
 				var at time.Duration
 				for i := range log {
 					if log[i].k == r.k && log[i].at >= d {
 						requested, at = true, log[i].at
 						break
+					}
+				}
+				// the check ran somewhere between its deadline and the moment we look (or the logged
+				// request); an expiration inside that interval makes its outcome a matter of timing
+				hi := time.Since(start)
+				if requested {
+					hi = at
+				}
+				for _, ct := range creations {
+					if e := ct + cfg.age; e > d-margin-margin/2 && e < hi+margin {
+						why = "timer near an expiration"
+						return false
 					}
 				}
 				if requested && at > d+procSlack {
